@@ -61,3 +61,39 @@ enum RepetitionMin {
     #[regex("(a|bb)c")] AltMin,      // min(2,4)+2 = 4
     #[regex("b+c")] Bc,              // 4 -> ties with AltMin on "bbc"
 }
+
+// ties whose members are NOT adjacent in declaration order: a lower-priority pattern that matches
+// the same text sits between them (and around them)
+#[derive(Logos)]
+enum TieSplitByLower {
+    #[regex("[a-z]+", priority = 5)] Lower,
+    #[regex("[a-z0-9]+", priority = 1)] Word,
+    #[regex("[a-c]+", priority = 5)] Abc,
+}
+
+#[derive(Logos)]
+enum TieSplitTwice {
+    #[regex("[a-z]+", priority = 7)] A,
+    #[regex("[a-z0-9]+", priority = 2)] B,
+    #[regex("[a-f]+", priority = 3)] C,
+    #[regex("[a-c]+", priority = 7)] D,
+    #[regex("[a-b]+", priority = 1)] E,
+    #[regex("a+", priority = 7)] F,
+}
+
+#[derive(Logos)]
+enum LowerTieBelowTopSplit {
+    // 3-way tie at priority 2 hidden below a unique top: accepted
+    #[regex("[ab]", priority = 2)] L1,
+    #[regex("b", priority = 9)] Top,
+    #[regex("[bc]", priority = 2)] L2,
+}
+
+#[derive(Logos)]
+enum TieAfterHigherElsewhere {
+    // "x1": H (9) wins; "xa": T1 and T2 tie at 4 with W (1) between them
+    #[regex("x[a-z]", priority = 4)] T1,
+    #[regex("x[0-9]", priority = 9)] H,
+    #[regex("x[a-z0-9]", priority = 1)] W,
+    #[regex("x[a-m]", priority = 4)] T2,
+}
